@@ -234,6 +234,96 @@ fn theta_case(ctx: &mut Ctx, cs0: &CrystalSetup, lp: f64, ls: f64) {
   }
 }
 
+
+/// the statement through the configuration route: `"poling_period_um": "auto"` / `"theta_deg": "auto"`
+fn config_case(ctx: &mut Ctx, crystal: &CrystalType, pm: PMType, cphi_deg: f64, ctheta_deg: f64, len_um: f64, celsius: f64, lp_nm: f64, ls_nm: f64, ths_deg: f64, phs_deg: f64, auto_theta: bool) {
+  let id = crystal.get_meta().id;
+  let json = format!(
+    r#"{{"crystal":{{"kind":"{}","pm_type":"{}","phi_deg":{},"theta_deg":{},"length_um":{},"temperature_c":{}}},
+        "pump":{{"wavelength_nm":{},"waist_um":100,"bandwidth_nm":5,"average_power_mw":1}},
+        "signal":{{"wavelength_nm":{},"phi_deg":{},"theta_deg":{},"waist_um":100,"waist_position_um":"auto"}},
+        "idler":"auto",{} "deff_pm_per_volt":1}}"#,
+    id,
+    pm,
+    cphi_deg,
+    if auto_theta { "\"auto\"".to_string() } else { format!("{}", ctheta_deg) },
+    len_um,
+    celsius,
+    lp_nm,
+    ls_nm,
+    phs_deg,
+    ths_deg,
+    if auto_theta { "" } else { r#""periodic_poling":{"poling_period_um":"auto"},"# }
+  );
+  let what = format!(
+    "route=config crystal={} pm={} cphi_deg={} ctheta_deg={} L={:e} T_c={} lp_nm={} ls_nm={} theta_s_deg={} phi_s_deg={}",
+    id, pm, cphi_deg, ctheta_deg, len_um * 1e-6, celsius, lp_nm, ls_nm, ths_deg, phs_deg
+  );
+  let cfg: SPDCConfig = match serde_json::from_str(&json) {
+    Ok(c) => c,
+    Err(e) => {
+      ctx.s("C04.config", false, "config/parse", &format!("{} err={}", what, e.to_string().replace(' ', "_")));
+      return;
+    }
+  };
+  let r = guard(|| cfg.try_as_spdc());
+  let len = len_um * 1e-6;
+  match r {
+    None => ctx.s("C04.config", false, "config/panic", &what),
+    Some(Err(_)) => {
+      ctx.count(if auto_theta { "config/theta/err" } else { "config/period/err" });
+    }
+    Some(Ok(spdc)) => {
+      let d = raw_vec(spdc.delta_k(spdc.signal.frequency(), spdc.idler.frequency())).z;
+      let phase = d.abs() * len / 2.0;
+      if auto_theta {
+        // the statement's angle clause on the SPDC object the configuration produced
+        let (sg, pu) = (spdc.signal.clone(), spdc.pump.clone());
+        let at = |theta: f64| {
+          let mut cs = spdc.crystal_setup.clone();
+          cs.theta = theta * RAD;
+          dkz(&sg, &pu, &cs, &PeriodicPoling::Off)
+        };
+        let mut prev = at(0.0);
+        let mut found = false;
+        for k in 1..2000 {
+          let cur = at(std::f64::consts::FRAC_PI_2 * (k as f64) / 1999.0);
+          if prev == 0.0 || (prev < 0.0) != (cur < 0.0) {
+            found = true;
+            break;
+          }
+          prev = cur;
+        }
+        let got = *(spdc.crystal_setup.theta / RAD);
+        let mut cs0 = spdc.crystal_setup.clone();
+        cs0.theta = 0. * RAD;
+        ctx.count(if got == *(cs0.optimum_theta(&spdc.signal, &spdc.pump) / RAD) { "config/theta/equals-direct-call" } else { "config/theta/differs-from-direct-call" });
+        if found {
+          ctx.count("config/theta/matchable");
+          let ok = (0.0..=std::f64::consts::FRAC_PI_2).contains(&got) && phase < 1e-3 && spdc.pp == PeriodicPoling::Off;
+          ctx.s("C04.config", ok, "config/theta-statement", &format!("{} auto_deg={:e} half_phase={:e}", what, got.to_degrees(), phase));
+        } else {
+          ctx.count("config/theta/unmatchable");
+        }
+      } else {
+        let direct = optimum_poling_period(&spdc.signal, &spdc.pump, &spdc.crystal_setup);
+        let got = *(spdc.pp.signed_period() / M);
+        ctx.count("config/period/ok");
+        ctx.count(if direct.as_ref().map(|p| *(*p / M) == got).unwrap_or(false) { "config/period/equals-direct-call" } else { "config/period/differs-from-direct-call" });
+        let z = dkz(&spdc.signal, &spdc.pump, &spdc.crystal_setup, &PeriodicPoling::Off);
+        let over = (TAU / z.abs() - len) * 1e6;
+        let clamped = got.abs() >= len * (1.0 - 1e-12);
+        ctx.s(
+          "C04.config",
+          phase < 1e-3 && (got < 0.0) == (z < 0.0) && got.abs() <= len,
+          if phase < 1e-3 || !clamped { "config/period-statement" } else { "period/phasematch/clamped-at-length" },
+          &format!("{} period={:e} half_phase={:e} z_unpoled={:e} over_um={:.4}", what, got, phase, z, over),
+        );
+      }
+    }
+  }
+}
+
 pub fn run(ctx: &mut Ctx) {
   let mut cr = crystals();
   let mode = ctx.extra.first().cloned().unwrap_or("all".into());
@@ -311,6 +401,30 @@ pub fn run(ctx: &mut Ctx) {
           }
         }
       }
+    }
+  }
+
+  if mode == "all" || mode == "config" {
+    let pms3 = [PMType::Type1_e_oo, PMType::Type2_e_eo, PMType::Type2_e_oe];
+    for k in 0..(ctx.n / 25).max(8) {
+      let crystal = ctx.rng.pick(&cr).clone();
+      let auto_theta = k % 3 == 0;
+      // the angle route only on uniaxial crystals here (the biaxial findings D3/D91 are searched by the direct route)
+      if auto_theta && (crystal == CrystalType::BiBO_1 || crystal == CrystalType::KTP) {
+        continue;
+      }
+      let pm = if auto_theta { *ctx.rng.pick(&pms3) } else { *ctx.rng.pick(&PMS) };
+      let (lp, ls) = gen_wavelengths(&mut ctx.rng, &crystal);
+      let rnd = |r: &mut Rng, lo: f64, hi: f64| (r.range(lo, hi) * 1e4).round() / 1e4;
+      let cphi = rnd(&mut ctx.rng, 0.0, 360.0);
+      let cth = rnd(&mut ctx.rng, 0.0, 90.0);
+      let len = rnd(&mut ctx.rng, 1000.0, 30000.0);
+      let t = rnd(&mut ctx.rng, 0.0, 100.0);
+      let ths = if auto_theta || ctx.rng.coin() { 0.0 } else { rnd(&mut ctx.rng, 0.0, 2.8) };
+      let phs = rnd(&mut ctx.rng, 0.0, 360.0);
+      let lp_nm = (lp * 1e9 * 1e3).round() / 1e3;
+      let ls_nm = (ls * 1e9 * 1e3).round() / 1e3;
+      config_case(ctx, &crystal, pm, cphi, cth, len, t, lp_nm, ls_nm, ths, phs, auto_theta);
     }
   }
 
